@@ -691,12 +691,15 @@ fn check_batch_c12(rep: &mut Report, cases: &[(Case, &'static str)], nostd: bool
     // Record: per engine (status1, status2, same_result flag).
     let engines: Vec<Engine> = if cfg!(feature = "std") { vec![Engine::Jit, Engine::Cranelift] } else { vec![Engine::Jit] };
     let pres: Vec<Pre> = cases.iter().map(|(c, _)| pre_run(c.clone(), String::new(), 200_000)).collect();
-    let ends = sys::run_batch(cases.len(), 120, 120, |i, out| {
+    // (CPU-time limits: 120 s for a batch, 400 s for a case re-run alone - Cranelift needs tens of
+    // seconds for some long programs on a slow or busy machine; only beyond that is a compilation
+    // called divergent)
+    let ends = sys::run_batch(cases.len(), 120, 400, |i, out| {
         let (c, _) = &cases[i];
         let p = &pres[i];
         let runnable = matches!(p.rr.outcome, Outcome::Value(_)) && matches!(p.ir.ran, Ran::Ok(_)) && !p.rr.neg_ldabs;
         for e in &engines {
-            if *e == Engine::Cranelift && (c.prog.len() / 8 > 100_000 || c.class == "size-residue-sweep") {
+            if *e == Engine::Cranelift && (c.prog.len() / 8 > 100_000 || c.class == "size-residue-sweep" || (c.class == "cond-ladder" && c.prog.len() / 8 > 7_000)) {
                 out.extend_from_slice(&[9, 9, 9]);
                 continue;
             }
